@@ -361,3 +361,55 @@ Proof.
   apply in_sstatus_write in H. right. eexists. split; [exact H|].
   right. exists names, sett. cbn. repeat split; auto.
 Qed.
+
+(* ------------------------------------------------------------------ C09: the numbers and trials of an algorithm request *)
+
+Lemma plan_sug_rpcs w resp r :
+  In r (snd (plan_sug w resp)) ->
+  r = RpcValidate \/ r = RpcValidateES \/
+  exists s, c_sug w = Some s /\ 0 < s_requests s - ss_count (s_st s) /\
+    (r = RpcGetSuggestions (s_requests s - ss_count (s_st s)) (s_requests s) (convert_filter (c_trials w))
+     \/ (r = RpcGetESRules (convert_filter (c_trials w)) /\ c_es (w_cfg w) = true)).
+Proof.
+  unfold plan_sug. destruct (c_sug w) as [s|]; [|intros []].
+  destruct (s_is (s_st s) SSucceeded); [intros []|].
+  destruct (negb (s_is (s_st s) SCreated)); [intros []|].
+  destruct (i_dep (w_infra w)) as [[|]|]; try (intros []; fail).
+  destruct (c_exp w); [|intros []].
+  set (cs1 := set_cond (ss_conds (s_st s)) SDeploymentReady CTrue RDeploymentReady).
+  assert (V : forall cs2 rpcs1 failed,
+    (if has_cond cs1 SRunning then (cs1, [], false)
+     else if negb (r_valid resp) then (smark_failed cs1, [RpcValidate], true)
+     else if c_es (w_cfg w) && negb (r_esvalid resp) then (smark_failed cs1, [RpcValidate; RpcValidateES], true)
+     else (smark_running cs1 CTrue RRunning, if c_es (w_cfg w) then [RpcValidate; RpcValidateES] else [RpcValidate], false))
+    = (cs2, rpcs1, failed) -> forall x, In x rpcs1 -> x = RpcValidate \/ x = RpcValidateES).
+  { intros cs2 rpcs1 failed H x Hx.
+    repeat match type of H with context [if ?c then _ else _] => destruct c end; inversion H; subst; cbn in Hx; intuition. }
+  destruct (if has_cond cs1 SRunning then _ else _) as [[cs2 rpcs1] failed] eqn:EV.
+  specialize (V _ _ _ eq_refl).
+  assert (V' : forall x, In x rpcs1 -> x = RpcValidate \/ x = RpcValidateES \/
+     exists s0, Some s = Some s0 /\ 0 < s_requests s0 - ss_count (s_st s0) /\
+       (x = RpcGetSuggestions (s_requests s0 - ss_count (s_st s0)) (s_requests s0) (convert_filter (c_trials w))
+        \/ (x = RpcGetESRules (convert_filter (c_trials w)) /\ c_es (w_cfg w) = true))).
+  { intros x Hx. destruct (V x Hx); auto. }
+  destruct failed; [cbn [snd]; auto|].
+  destruct (s_requests s - ss_count (s_st s) <=? 0) eqn:En; [cbn [snd]; auto|]. apply Z.leb_gt in En.
+  assert (G : forall x, In x (rpcs1 ++ [RpcGetSuggestions (s_requests s - ss_count (s_st s)) (s_requests s) (convert_filter (c_trials w))]) ->
+     x = RpcValidate \/ x = RpcValidateES \/
+     exists s0, Some s = Some s0 /\ 0 < s_requests s0 - ss_count (s_st s0) /\
+       (x = RpcGetSuggestions (s_requests s0 - ss_count (s_st s0)) (s_requests s0) (convert_filter (c_trials w))
+        \/ (x = RpcGetESRules (convert_filter (c_trials w)) /\ c_es (w_cfg w) = true))).
+  { intros x Hx. apply in_app_or in Hx as [Hx|[<-|[]]]; [auto|]. right. right. exists s. auto. }
+  assert (G2 : c_es (w_cfg w) = true -> forall x,
+     In x ((rpcs1 ++ [RpcGetSuggestions (s_requests s - ss_count (s_st s)) (s_requests s) (convert_filter (c_trials w))]) ++ [RpcGetESRules (convert_filter (c_trials w))]) ->
+     x = RpcValidate \/ x = RpcValidateES \/
+     exists s0, Some s = Some s0 /\ 0 < s_requests s0 - ss_count (s_st s0) /\
+       (x = RpcGetSuggestions (s_requests s0 - ss_count (s_st s0)) (s_requests s0) (convert_filter (c_trials w))
+        \/ (x = RpcGetESRules (convert_filter (c_trials w)) /\ c_es (w_cfg w) = true))).
+  { intros Es x Hx. apply in_app_or in Hx as [Hx|[<-|[]]]; [auto|]. right. right. exists s. auto. }
+  destruct (r_reply resp) as [|nm sett]; [cbn [snd]; auto|].
+  destruct (negb (Z.of_nat (length nm) =? s_requests s - ss_count (s_st s))); [cbn [snd]; auto|].
+  destruct (c_es (w_cfg w)) eqn:Es.
+  - destruct (negb (r_esrules resp)); cbn [andb snd]; auto.
+  - cbn [andb snd]. auto.
+Qed.
